@@ -9,10 +9,15 @@
    missing row, first use of the class; create; expire of a held instance; cull triggered through the
    counters; CacheFactory.expireAll; sqlmeta.expireAll; forgetting a result) and all schedules whose
    steps pass `guard`.  The guard excludes exactly one kind of step: the write of created() (line
-   "K181", under the lock) when the cache already has an entry for the new id -- which happens only
-   when a get of that id missed between the creator's INSERT and its created() and registered an
-   instance of its own.  (Two harness conventions are in the guard as well: Expire names a result
-   slot of an existing thread, Drop one of the thread itself.) *)
+   "K181", under the lock; "K183" when caching is off) when the cache already has an entry for the new
+   id -- which happens only when a get of that id missed between the creator's INSERT and its
+   created() and registered an instance of its own.  (Two harness conventions are in the guard as
+   well: Expire names a result slot of an existing thread, Drop one of the thread itself.  For a
+   cache=False connection the guard carries one ASSUMPTION besides: at line "F142" the weak entry the
+   lock holder saw dead at line "F137" is still there and still dead -- true in the model (only the
+   lock holder writes the weak dict, a dead referent stays dead) but not proved; the replay checks it
+   on every executed step.  The expire() of an instance still under construction is the second
+   excluded kind of step, see docs/notes/C09.md.) *)
 From Coq Require Import List ZArith Bool Arith String.
 From Gen Require Import CacheConc.
 From Model Require Import CacheConc CacheConcSpec.
@@ -54,6 +59,60 @@ Proof. exact (@no_deadlock_reachable). Qed.
 Theorem C09_no_deadlock_inv : forall s, Inv s ->
   (forall t, t < s_n s -> enabled s t = false) -> all_finished s.
 Proof. exact (@no_deadlock). Qed.
+
+(* ================================================================== both modes of the connection
+   The configuration (`cache` option of the connection = CacheFactory.doCache) is a parameter of the model:
+   initc dc ...; `init` above is initc true.  With cache=False get / put / created / expire / expireAll / getAll
+   take their other branches (everything goes through the weak dict).  The theorems below hold for BOTH values of dc;
+   the ones above are their instances at dc = true. *)
+Theorem C09_inv_modes_partial : forall dc freq frac rows progs s,
+  greach guard (initc dc freq frac rows progs) s -> Inv s.
+Proof. exact (@inv_reachable_modes). Qed.
+
+Theorem C09_safe_modes_partial : forall dc freq frac rows progs s,
+  greach guard (initc dc freq frac rows progs) s -> Safe s.
+Proof. exact (@safe_reachable_modes). Qed.
+
+Theorem C09_quiescent_modes_partial : forall dc freq frac rows progs s,
+  greach guard (initc dc freq frac rows progs) s -> all_finished s ->
+  s_lock s = None /\
+  (forall t x, result_of s t (RExc x) -> x = NotFound) /\
+  (forall t t' i o o' e, result_of s t (RObj o i e) -> result_of s t' (RObj o' i e) -> o = o') /\
+  (forall t i o, result_of s t (RObj o i (s_epoch s i)) ->
+     dget (s_strong s) i = Some o \/ dget (s_weak s) i = Some o).
+Proof. exact (@quiescent_reachable_modes). Qed.
+
+Theorem C09_no_deadlock_modes_partial : forall dc freq frac rows progs s,
+  greach guard (initc dc freq frac rows progs) s ->
+  (forall t, t < s_n s -> enabled s t = false) -> all_finished s.
+Proof. exact (@no_deadlock_reachable_modes). Qed.
+
+(* unguarded, every schedule: the mode never changes, every thread stays inside the branches of that mode, and a
+   cache=False connection never has a strong dict entry *)
+Theorem C09_mode_invariant : forall dc freq frac rows progs s,
+  reach (initc dc freq frac rows progs) s -> Aux s /\ s_docache s = dc.
+Proof. exact (@mode_reachable). Qed.
+
+(* unguarded: with cache=False no thread ever reaches a purging statement of CacheFactory.expire: expire() of an
+   instance leaves the identity map alone (no new purge epoch) *)
+Theorem C09_nocache_never_purges : forall freq frac rows progs s t,
+  reach (initc false freq frac rows progs) s -> t < s_n s ->
+  t_pc (s_thr s t) <> E237 /\ t_pc (s_thr s t) <> E239.
+Proof. exact (@nocache_never_purges). Qed.
+
+(* cache=False: the unguarded statements are false as well (the same race: create || get of the id being created) *)
+Theorem C09_inv_nocache_full_refuted : ~ C09_inv_nocache_full.
+Proof. exact (@inv_nocache_full_refuted). Qed.
+
+Theorem C09_quiescent_nocache_full_refuted : ~ C09_quiescent_nocache_full.
+Proof. exact (@quiescent_nocache_full_refuted). Qed.
+
+Theorem C09_created_vs_get_nocache_refuted :
+  match run (initc false 100 2 [1%Z; 2%Z; 3%Z] [w_setup; [Create]; [Get 4%Z]]) w_noc_sched with
+  | Some s => all_finished_b s = true /\ two_objects s = true
+  | None => False
+  end.
+Proof. exact (@created_vs_get_nocache_witness). Qed.
 
 (* ---- the unguarded statements are false *)
 Theorem C09_inv_full_refuted : ~ C09_inv_full.
@@ -129,7 +188,54 @@ Example C09_nonvacuous_quiescent_disabled :
   end.
 Proof. vm_compute. split; reflexivity. Qed.
 
+(* ---- non-vacuity, cache=False (schedules executed by the scheduler on the real code with cache=0) *)
+(* two threads miss the same row on first use; the second waits for the lock, then finds the entry under the lock *)
+Example C09_nonvacuous_nocache_two_misses :
+  match grun (initc false 100 2 [1%Z; 2%Z] [[]; [Get 1%Z]; [Get 1%Z]])
+             (flat_map (fun _ => [1; 2]) (seq 0 11) ++ repeat 1 13 ++ repeat 2 6) with
+  | Some s => all_finished_b s = true /\ obj_results s = [(1, 0, 1%Z, 0); (2, 0, 1%Z, 0)] /\ s_lock s = None /\
+              s_strong s = []
+  | None => False
+  end.
+Proof. vm_compute. repeat split; reflexivity. Qed.
+
+(* a dead weak entry (the set-up thread got row 1 and forgot it) is deleted by the next get under the lock (the
+   guard's seen_dead_still holds); expire() of the held instance does not purge: the next get returns the same object
+   and the purge epoch stays 0; a create without caching; a get of a missing row *)
+Example C09_nonvacuous_nocache_dead_expire_create :
+  match grun (initc false 100 2 [1%Z; 2%Z]
+                [[Get 1%Z; Drop 0 0]; [Get 1%Z; Expire 1 0; Get 1%Z]; [Get 1%Z; Create; Get 7%Z]])
+             (repeat 0 25 ++ repeat 1 3 ++ repeat 2 5 ++ repeat 1 3 ++ repeat 2 5 ++ repeat 1 2 ++ repeat 2 14 ++
+              repeat 1 3 ++ repeat 2 5 ++ repeat 1 3 ++ repeat 2 5 ++ repeat 1 3 ++ repeat 2 5 ++ repeat 1 3 ++
+              repeat 2 5 ++ repeat 1 3 ++ repeat 2 5 ++ repeat 1 3 ++ repeat 2 2 ++ repeat 1 7) with
+  | Some s => all_finished_b s = true /\ negb (two_objects s) = true /\ negb (bad_exception s) = true /\
+              negb (lost_object s) = true /\ s_epoch s 1%Z = 0 /\
+              obj_results s = [(1, 1, 1%Z, 0); (1, 1, 1%Z, 0); (2, 1, 1%Z, 0); (2, 2, 3%Z, 0)]
+  | None => False
+  end.
+Proof. vm_compute. repeat split; reflexivity. Qed.
+
+(* sqlmeta.expireAll (weakrefAll returns at once, getAll starts from an empty list) concurrent with a create *)
+Example C09_nonvacuous_nocache_mexall_create :
+  match grun (initc false 100 2 [1%Z; 2%Z] [[Get 1%Z]; [MExAll]; [Create; Get 1%Z]])
+             (repeat 0 24 ++ repeat 1 4 ++ repeat 2 3 ++ repeat 1 4 ++ repeat 2 3 ++ repeat 1 4 ++ repeat 2 1 ++
+              repeat 1 13 ++ repeat 2 3 ++ repeat 1 4 ++ repeat 2 3 ++ repeat 1 4 ++ repeat 2 7) with
+  | Some s => all_finished_b s = true /\ negb (two_objects s) = true /\ negb (bad_exception s) = true /\
+              negb (lost_object s) = true /\ s_lock s = None
+  | None => False
+  end.
+Proof. vm_compute. repeat split; reflexivity. Qed.
+
 Print Assumptions C09_skeleton_tied.
+Print Assumptions C09_inv_modes_partial.
+Print Assumptions C09_safe_modes_partial.
+Print Assumptions C09_quiescent_modes_partial.
+Print Assumptions C09_no_deadlock_modes_partial.
+Print Assumptions C09_mode_invariant.
+Print Assumptions C09_nocache_never_purges.
+Print Assumptions C09_inv_nocache_full_refuted.
+Print Assumptions C09_quiescent_nocache_full_refuted.
+Print Assumptions C09_created_vs_get_nocache_refuted.
 Print Assumptions C09_inv_partial.
 Print Assumptions C09_safe_partial.
 Print Assumptions C09_quiescent_partial.
